@@ -431,6 +431,12 @@ func (c *Ctx) framingReadsWholePacket() {
 	n := 0
 	for _, call := range ir.Calls(fn) {
 		cc := call.Common()
+		// io.ReadFull / io.ReadAtLeast read until the slice is filled (or fail): complete by contract
+		if f := cc.StaticCallee(); f != nil && f.Pkg != nil && f.Pkg.Pkg.Path() == "io" && (f.Name() == "ReadFull" || f.Name() == "ReadAtLeast") {
+			n++
+			c.R.Ok(ruleP4, fmt.Sprintf("getMessageBuffer:read#%d-repeated-until-complete", n), c.P.InstrPos(call), "io."+f.Name()+" fills the whole slice or fails")
+			continue
+		}
 		if !cc.IsInvoke() || cc.Method.Name() != "Read" {
 			continue
 		}
